@@ -311,6 +311,7 @@ func c19Verdicts(a *ChildArgs, r *rand.Rand, avoid map[string]bool, dir string) 
 		run := c19Exec(dir, nil, args...)
 		a.Rec.Count("evaluations", 1)
 		a.Rec.Distinct("cases", label+"|"+strings.Join(args, " ")+"|"+fmt.Sprint(hash64([]byte(fmt.Sprint(witFiles)))))
+		a.Rec.Sample("verdicts-"+label, 1, map[string]interface{}{"args": args, "rc": run.rc, "library_rejects": rejected, "stdout": trunc(run.out, 200)})
 		wit := map[string]interface{}{"args": args, "files": witFiles, "rc": run.rc, "stdout": trunc(run.out, 1500), "stderr": trunc(run.err, 1500), "library_rejects": rejected}
 		if run.timedOut {
 			a.Rec.Inconclusive("C19/verdicts/"+label+"/timeout", "CLI run exceeded the 120 s watchdog")
@@ -545,6 +546,7 @@ func c19Atomic(a *ChildArgs, r *rand.Rand, avoid map[string]bool, dir, mode stri
 	}
 	judge := func(point string, run c19Run) bool {
 		a.Rec.Count("evaluations", 1)
+		a.Rec.Sample(mode+"-"+label, 2, map[string]interface{}{"fault": point, "rc": run.rc, "original_bytes": len(f.content), "new_bytes": len(newContent)})
 		a.Rec.Distinct("cases", mode+"|"+label+"|"+point+"|"+f.content)
 		got := c19Snapshot(dir, files)[f.name].content
 		_, statErr := os.Stat(filepath.Join(dir, f.name))
